@@ -113,6 +113,49 @@ struct World<'a> {
     cks: Vec<Ck>,
     root_s: String,
     last: Listing, // the listing the model has seen last
+    names: Names,  // what the REAL registry resolves (ToolRegistry::verif_names), read at run time
+}
+
+/// every name the real registry resolves: registered names and (alias -> target), as ToolRegistry::get does it
+#[derive(Clone, Default)]
+struct Names {
+    tools: std::collections::BTreeSet<String>,
+    aliases: BTreeMap<String, String>,
+}
+impl Names {
+    fn of(reg: &rip_tools::ToolRegistry) -> Names {
+        let (tools, aliases) = reg.verif_names();
+        Names { tools: tools.into_iter().collect(), aliases: aliases.into_iter().collect() }
+    }
+    /// the registered name whose handler `get(name)` returns (a registered name wins over an alias; one level only)
+    fn canon(&self, name: &str) -> Option<String> {
+        if self.tools.contains(name) {
+            return Some(name.to_string());
+        }
+        self.aliases.get(name).filter(|t| self.tools.contains(*t)).cloned()
+    }
+    /// every name that reaches the handler registered as `target`
+    fn reaching(&self, target: &str) -> Vec<String> {
+        let mut v = vec![];
+        if self.tools.contains(target) {
+            v.push(target.to_string());
+        }
+        for (a, t) in &self.aliases {
+            if t == target && !self.tools.contains(a) && self.tools.contains(t) {
+                v.push(a.clone());
+            }
+        }
+        v
+    }
+    fn resolvable(&self) -> Vec<String> {
+        let mut v: Vec<String> = self.tools.iter().cloned().collect();
+        for a in self.aliases.keys() {
+            if self.canon(a).is_some() && !v.contains(a) {
+                v.push(a.clone());
+            }
+        }
+        v
+    }
 }
 
 impl<'a> World<'a> {
@@ -357,6 +400,13 @@ impl<'a> World<'a> {
             }
             "tool" => {
                 let name = op["name"].as_str().unwrap_or("write").to_string();
+                // the handler the registry hands out for this name (aliases resolved as ToolRegistry::get does)
+                let canon = self.names.canon(&name);
+                let is_write = canon.as_deref() == Some("write");
+                let is_patch = canon.as_deref() == Some("apply_patch");
+                if canon.as_deref() != Some(name.as_str()) {
+                    Self::bump(run, if canon.is_some() { "tool-by-alias" } else { "tool-unregistered-name" });
+                }
                 let mut args = op["args"].clone();
                 if let Some(p) = args.get("path").and_then(|p| p.as_str()) {
                     args["path"] = json!(self.sbx.subst(p));
@@ -418,12 +468,21 @@ impl<'a> World<'a> {
                 }
                 // what the auto checkpoint was asked to cover
                 let mut parsed = true;
-                let raws: Vec<String> = if name == "write" {
+                let raws: Vec<String> = if is_write {
                     vec![args["path"].as_str().unwrap_or("").to_string()]
-                } else {
+                } else if is_patch {
                     match rip_workspace::Patch::parse(args["patch"].as_str().unwrap_or("")) {
                         Ok(p) => p.affected_paths().iter().map(|x| x.to_string_lossy().to_string()).collect(),
                         Err(_) => {
+                            parsed = false;
+                            vec![]
+                        }
+                    }
+                } else {
+                    // any other handler (or none): whatever checkpoint the runner took is registered under the names it reports
+                    match &created {
+                        Some((_, files)) => files.clone(),
+                        None => {
                             parsed = false;
                             vec![]
                         }
@@ -441,7 +500,7 @@ impl<'a> World<'a> {
                 }
                 // the tool call itself: the write tool is replayed in the model (OWrite), apply_patch is an opaque edit
                 let registered = parsed && created.is_some();
-                if name == "write" && args["path"].is_string() && args["content"].is_string() {
+                if is_write && args["path"].is_string() && args["content"].is_string() {
                     let mode = if args["append"].as_bool().unwrap_or(false) {
                         if args["create"].as_bool().unwrap_or(true) { 2 } else { 3 }
                     } else if args["atomic"].as_bool().unwrap_or(true) {
@@ -473,7 +532,7 @@ impl<'a> World<'a> {
                             // KNOWN FINDING S10j, recognised executably: the call itself put a DIRECTORY where a file it
                             // covers (a file before the call) stood - apply_patch `Delete File: a` + `Add File: a/x`
                             let dir_at_covered_file = self.cks[idx].expect.iter().any(|(c, was)| was.is_some() && after.get(c) == Some(&Node::Dir));
-                            let class = if name == "apply_patch" && dir_at_covered_file { "auto_checkpointed_patch_put_directory_at_covered_file" } else { "edit_not_undone_by_auto_checkpoint" };
+                            let class = if is_patch && dir_at_covered_file { "auto_checkpointed_patch_put_directory_at_covered_file" } else { "edit_not_undone_by_auto_checkpoint" };
                             run.viol.push((format!("{name}: the rewind to the call's own auto checkpoint failed; the edit ({}) cannot be undone", show_list(&changed)), class.into()));
                         } else {
                             let fb = files_of(&before);
@@ -483,7 +542,7 @@ impl<'a> World<'a> {
                                 run.viol.push((
                                     format!(
                                         "{name} {}: after rewinding to the call's auto checkpoint (covering {:?}) the file {} is {} but was {} before the call",
-                                        if name == "write" { format!("{:?}", args["path"].as_str().unwrap_or("")) } else { "patch".to_string() },
+                                        if is_write { format!("{:?}", args["path"].as_str().unwrap_or("")) } else { "patch".to_string() },
                                         created.as_ref().map(|c| c.1.clone()).unwrap_or_default(),
                                         show_comps(p),
                                         desc(fr.get(p)),
@@ -767,7 +826,19 @@ fn patch_op(ops: Vec<Vec<String>>) -> Value {
     lines.push("*** End Patch".into());
     json!({"patch": lines.join("\n")})
 }
-fn gen_op(r: &mut Rng, root: &std::path::Path, n_cks: usize, step: u64) -> Value {
+/// the name a generated call uses for the handler registered as `target`: mostly the registered name, one time in
+/// four any other name the real registry resolves to it (aliases)
+fn pick_name(r: &mut Rng, names: &Names, target: &str) -> String {
+    let use_other = r.chance(1, 4);
+    let k = r.below(16) as usize;
+    let all = names.reaching(target);
+    if use_other && all.len() > 1 {
+        all[1 + k % (all.len() - 1)].clone()
+    } else {
+        target.to_string()
+    }
+}
+fn gen_op(r: &mut Rng, root: &std::path::Path, n_cks: usize, step: u64, names: &Names) -> Value {
     let cur = ws_listing(root);
     let files: Vec<String> = files_of(&cur).keys().map(show_comps).collect();
     let k = r.below(12);
@@ -810,7 +881,7 @@ fn gen_op(r: &mut Rng, root: &std::path::Path, n_cks: usize, step: u64) -> Value
             _ => gen_deco(r, &p),
         };
         let args = write_args(r.below(5).min(3), &raw, &format!("tool {p} v{step}\n"));
-        return json!({"op": "tool", "name": "write", "args": args, "undo": undo, "undo_runner": undo_runner});
+        return json!({"op": "tool", "name": pick_name(r, names, "write"), "args": args, "undo": undo, "undo_runner": undo_runner});
     }
     let mut ops = vec![];
     let nops = r.range(1, 3);
@@ -852,7 +923,74 @@ fn gen_op(r: &mut Rng, root: &std::path::Path, n_cks: usize, step: u64) -> Value
             ops = vec![patch_lines(0, &format!("{f}/below.txt"), "", "", step), patch_lines(1, &f, "", "", step)];
         }
     }
-    json!({"op": "tool", "name": "apply_patch", "args": patch_op(ops), "undo": undo, "undo_runner": undo_runner})
+    json!({"op": "tool", "name": pick_name(r, names, "apply_patch"), "args": patch_op(ops), "undo": undo, "undo_runner": undo_runner})
+}
+
+/// NAMES block: "before EVERY file-editing tool runs" - every name the real registry resolves (registered names and
+/// aliases, read from ToolRegistry::verif_names at run time), plus names close to them and names other harnesses use
+/// for the same operations (not registered on the unchanged tree: such a call must change nothing), each run through
+/// ToolRunner::run with the argument shapes of every file-editing tool: write (atomic / plain / append / append
+/// without create), apply_patch (add / delete / update / move) and both at once; every call followed by the undo
+/// check.  Judged by effect only: a call that changed a file must have been preceded by an auto checkpoint, and
+/// rewinding to it must give back every file - whatever the name was.
+fn names_cases(names: &Names, seed: u64) -> Vec<Value> {
+    let mut list: Vec<String> = names.resolvable();
+    let resolvable = list.len();
+    let mut extra: Vec<String> = vec![];
+    for n in &list {
+        extra.push(n.to_uppercase());
+        let mut c = n.chars();
+        if let Some(f) = c.next() {
+            extra.push(f.to_uppercase().collect::<String>() + c.as_str());
+        }
+        extra.push(format!("{n} "));
+        extra.push(format!(" {n}"));
+        extra.push(format!("{n}\n"));
+        extra.push(n.replace('_', "-"));
+        extra.push(n.replace('_', ""));
+        extra.push(format!("{n}_file"));
+        extra.push(format!("file_{n}"));
+        extra.push(format!("functions.{n}"));
+    }
+    for n in ["write_file", "patch", "edit", "edit_file", "create_file", "str_replace", "str_replace_editor", "Write", "Edit", "MultiEdit", "applypatch", "apply-patch", "file_write", "fs_write", "replace", "delete_file", "rm", ""] {
+        extra.push(n.to_string());
+    }
+    for n in extra {
+        if !list.contains(&n) {
+            list.push(n);
+        }
+    }
+    let mut v = vec![];
+    for (i, name) in list.iter().enumerate() {
+        let mut init = Listing::new();
+        for p in FILES.iter().take(N_EXISTING) {
+            put_file(&mut init, p, &init_content(p));
+        }
+        let k = i + seed as usize;
+        let targets = ["a.txt", "d/x.txt", "m/n/new.txt", "new.txt", "sp ace.txt", "d/e/z.txt"];
+        let mut ops = vec![];
+        for mode in 0..4u64 {
+            let t = targets[(k + mode as usize) % targets.len()];
+            ops.push(json!({"op": "tool", "name": name, "args": write_args(mode, t, &format!("names {t} m{mode}\n")), "undo": true, "undo_runner": (k + mode as usize) % 2 == 0}));
+        }
+        let pt = ["added.txt", "b.txt", "d/y.txt", "n/o/p.txt"];
+        for kind in 0..4u64 {
+            let t = pt[kind as usize];
+            ops.push(json!({"op": "tool", "name": name, "args": patch_op(vec![patch_lines(kind, t, &format!("{t} v0"), "moved/here.txt", kind + 1)]), "undo": true, "undo_runner": (k + kind as usize) % 2 == 1}));
+        }
+        // both shapes at once (a handler that ignores the fields it does not know)
+        let mut both = patch_op(vec![patch_lines(0, "union-added.txt", "", "", 9), patch_lines(1, "Makefile", "", "", 9)]);
+        both["path"] = json!("README.MD");
+        both["content"] = json!("union\n");
+        ops.push(json!({"op": "tool", "name": name, "args": both, "undo": true}));
+        // without the undo: the call stands, a later rewind to an earlier checkpoint must still be exact
+        ops.push(json!({"op": "create", "raws": ["a.txt", "new.txt", "d/x.txt"]}));
+        ops.push(json!({"op": "tool", "name": name, "args": write_args(0, "a.txt", "names final\n")}));
+        ops.push(json!({"op": "tool", "name": name, "args": patch_op(vec![patch_lines(0, "new.txt", "", "", 11)])}));
+        ops.push(json!({"op": "rewind", "idx": 0}));
+        v.push(json!({"cwd": (k % 3) as u64, "init": listing_json(&init), "ops": ops, "shrink": true, "names_block": i < resolvable}));
+    }
+    v
 }
 
 /// SYSTEMATIC block: every single decoration around existing / nested / new targets, through every tool with an auto
@@ -1006,12 +1144,14 @@ fn run_case(rt: &tokio::runtime::Runtime, case: &Value) -> Value {
     let sbx = Sandbox::new("c14", &init);
     let ws = Workspace::new(&sbx.root).expect("workspace");
     let hook = ripd::verif::workspace_checkpoint_hook(sbx.root.clone()).expect("hook");
-    let runner = ToolRunner::with_checkpoint_hook(registry(&sbx.root), 1, hook);
+    let reg = registry(&sbx.root);
+    let names = Names::of(&reg);
+    let runner = ToolRunner::with_checkpoint_hook(reg, 1, hook);
     let plain = ToolRunner::new(registry(&sbx.root), 1);
     std::env::set_current_dir(sbx.cwd_dir(cwd)).expect("chdir");
     let root_s = sbx.root.to_string_lossy().to_string();
     let init_listing = ws_listing(&sbx.root);
-    let mut w = World { sbx: &sbx, ws, runner, plain, rt, seq: 0, cks: vec![], root_s: root_s.clone(), last: init_listing.clone() };
+    let mut w = World { sbx: &sbx, ws, runner, plain, rt, seq: 0, cks: vec![], root_s: root_s.clone(), last: init_listing.clone(), names: names.clone() };
     let mut run = Run::default();
     if let Some(ops) = case.get("ops").and_then(|o| o.as_array()) {
         for op in ops {
@@ -1020,7 +1160,7 @@ fn run_case(rt: &tokio::runtime::Runtime, case: &Value) -> Value {
     } else {
         let n = case["n_ops"].as_u64().unwrap_or(6);
         for step in 0..n {
-            let op = gen_op(&mut r, &sbx.root, w.cks.len(), step + 1);
+            let op = gen_op(&mut r, &sbx.root, w.cks.len(), step + 1, &names);
             w.exec(&mut run, &op);
         }
     }
@@ -1131,7 +1271,7 @@ fn main() {
     }
     let verif_root = a.extra.get("verif").cloned().unwrap_or_else(|| env!("CARGO_MANIFEST_DIR").to_string() + "/..");
     let mut res = RunResult::new("C14", &a);
-    res.rule = "cases = (initial workspace, history, process cwd): 3-10 operations drawn from checkpoint create (Workspace API / ToolRunner + real hook; 1-4 paths: existing, missing, nested, './', '//', '/./', trailing '/', absolute inside the root, directories, the root, '..' and outside paths), harness edits (write, delete, mkdir, file replaced by a directory and back, rmtree), write (atomic / plain / append / append without create) and apply_patch (add, update, move, delete) through ToolRunner::run with auto-checkpoints - path arguments and patch headers decorated (leading / trailing blanks incl. unicode blanks and newlines, './', '//', '/./', trailing '/', backslashes, ...), each call followed (3 of 4) by a rewind to its own auto checkpoint judged by effect (whole tree before the call = tree after the rewind) - and rewinds to any earlier checkpoint in any order; stored copies changed / appended to through the write tool or removed (the store lies inside the workspace); workspaces hold siblings of the targets (<stem>.tmp, <name>.tmp, <name>~, .<name>.swp, <name>.tmp-x, <name>.bak, ...); a systematic block runs every single decoration x target x tool; cwd in {root, sibling, parent}; non-trivial = at least one successful create and one rewind".into();
+    res.rule = "cases = (initial workspace, history, process cwd): 3-10 operations drawn from checkpoint create (Workspace API / ToolRunner + real hook; 1-4 paths: existing, missing, nested, './', '//', '/./', trailing '/', absolute inside the root, directories, the root, '..' and outside paths), harness edits (write, delete, mkdir, file replaced by a directory and back, rmtree), write (atomic / plain / append / append without create) and apply_patch (add, update, move, delete) through ToolRunner::run with auto-checkpoints - path arguments and patch headers decorated (leading / trailing blanks incl. unicode blanks and newlines, './', '//', '/./', trailing '/', backslashes, ...), each call followed (3 of 4) by a rewind to its own auto checkpoint judged by effect (whole tree before the call = tree after the rewind) - and rewinds to any earlier checkpoint in any order; stored copies changed / appended to through the write tool or removed (the store lies inside the workspace); workspaces hold siblings of the targets (<stem>.tmp, <name>.tmp, <name>~, .<name>.swp, <name>.tmp-x, <name>.bak, ...); a systematic block runs every single decoration x target x tool; a names block runs EVERY name the real registry resolves (registered names and aliases, ToolRegistry::verif_names) and names close to them through ToolRunner::run with the argument shapes of every file-editing tool, judged by effect (a call that changed a file has an auto checkpoint before it, and the rewind to it restores every file), and the random histories call a handler by any name that reaches it; cwd in {root, sibling, parent}; non-trivial = at least one successful create and one rewind".into();
     let n = if a.thorough() { 8000 } else { 400 };
     let mut r = Rng::new(a.seed);
     let mut jobs: Vec<Value> = if let Some(rp) = &a.replay {
@@ -1141,6 +1281,11 @@ fn main() {
         corpus(&std::path::Path::new(&verif_root).join("corpus/C14"))
     };
     if a.replay.is_none() {
+        // every name the real registry resolves, read from it now
+        let names = Names::of(&registry(std::path::Path::new("/var/tmp")));
+        res.bump_by("names-registered", names.tools.len() as u64);
+        res.bump_by("names-aliases", names.aliases.len() as u64);
+        jobs.extend(names_cases(&names, a.seed));
         jobs.extend(systematic(a.seed, if a.thorough() { 0 } else { 12 }));
         jobs.extend(big_cases(a.seed, a.thorough()));
         jobs.extend(wide_cases());
